@@ -25,7 +25,10 @@ import (
 	"io"
 	"net"
 	"os"
+	"os/exec"
+	"path/filepath"
 	"sort"
+	"strconv"
 	"strings"
 	"time"
 
@@ -44,6 +47,127 @@ var (
 	out      *vh.Out
 	thorough bool
 )
+
+// ---------------------------------------------------------------- scenario guard
+//
+// Every scenario (one call of a run* function) is numbered.  An ordinary panic is recovered inside
+// the scenario and becomes an oracle failure there.  A FATAL run-time error (stack overflow, e.g. a
+// compressor writing into itself) or a stall cannot be recovered in-process: the harness first runs
+// the same scenario list in a child process (the "canary") that journals the scenario it is about
+// to start; when the canary dies or stalls, the last journalled scenario is recorded and the
+// canary is restarted behind it.  The real run then reports each such scenario as an oracle failure
+// (key scenario-panic, the scenario as replay input) instead of executing it, and continues.
+var (
+	scn           int
+	crashed       = map[int]string{}
+	giveUpAfter   = -1
+	canaryJournal *os.File
+	canarySkip    int
+)
+
+func guard(c interface{}) bool {
+	scn++
+	if canaryJournal != nil {
+		if scn <= canarySkip {
+			return false
+		}
+		fmt.Fprintf(canaryJournal, "%d\n", scn)
+		return true
+	}
+	if why, ok := crashed[scn]; ok {
+		out.Fail("the scenario brings the process down: "+why, "scenario-panic", c)
+		return false
+	}
+	if giveUpAfter >= 0 && scn > giveUpAfter {
+		out.Count("skipped-after-too-many-crashes", strconv.Itoa(scn), false)
+		return false
+	}
+	return true
+}
+
+// runCanaries fills `crashed` (parent) or switches this process into canary mode (child).
+func runCanaries(fl vh.Flags) {
+	if j := os.Getenv("C07_CANARY_JOURNAL"); j != "" {
+		f, err := os.OpenFile(j, os.O_APPEND|os.O_WRONLY|os.O_CREATE, 0o644)
+		if err != nil {
+			os.Exit(2)
+		}
+		canaryJournal = f
+		canarySkip, _ = strconv.Atoi(os.Getenv("C07_CANARY_SKIP"))
+		return
+	}
+	dir, err := os.MkdirTemp("", "c07canary")
+	if err != nil {
+		return
+	}
+	defer os.RemoveAll(dir)
+	journal := filepath.Join(dir, "journal")
+	last := func() int {
+		b, _ := os.ReadFile(journal)
+		l := strings.Fields(string(b))
+		if len(l) == 0 {
+			return 0
+		}
+		n, _ := strconv.Atoi(l[len(l)-1])
+		return n
+	}
+	const stall = 45 * time.Second
+	for skip, n := 0, 0; ; n++ {
+		args := []string{"-seed", strconv.FormatUint(fl.Seed, 10), "-tier", fl.Tier, "-out", filepath.Join(dir, "out")}
+		if fl.Replay != "" {
+			args = append(args, "-replay", fl.Replay)
+		}
+		os.MkdirAll(filepath.Join(dir, "out"), 0o755)
+		var eb bytes.Buffer
+		cmd := exec.Command(os.Args[0], args...)
+		cmd.Env = append(os.Environ(), "C07_CANARY_JOURNAL="+journal, "C07_CANARY_SKIP="+strconv.Itoa(skip))
+		cmd.Stderr = &eb
+		if err = cmd.Start(); err != nil {
+			return
+		}
+		done, stalled := make(chan error, 1), false
+		go func() { done <- cmd.Wait() }()
+		for sz, idle := int64(-1), time.Duration(0); ; {
+			select {
+			case err = <-done:
+			case <-time.After(time.Second):
+				if st, e := os.Stat(journal); e == nil && st.Size() != sz {
+					sz, idle = st.Size(), 0
+				} else if idle += time.Second; idle >= stall {
+					stalled = true
+					cmd.Process.Kill()
+				}
+				continue
+			}
+			break
+		}
+		if err == nil && !stalled {
+			return
+		}
+		at := last()
+		if at <= skip { // died outside any scenario: nothing to attribute, let the real run show it
+			return
+		}
+		why := fmt.Sprint(err)
+		if stalled {
+			why = fmt.Sprintf("no progress for %v (killed)", stall)
+		} else {
+			for _, l := range strings.Split(eb.String(), "\n") {
+				if strings.HasPrefix(l, "fatal error:") || strings.HasPrefix(l, "panic:") || strings.HasPrefix(l, "runtime: goroutine stack exceeds") {
+					why = strings.TrimSpace(l) + " (" + why + ")"
+					if !strings.HasPrefix(l, "runtime:") {
+						break
+					}
+				}
+			}
+		}
+		crashed[at], skip = why, at
+		if n >= 24 {
+			giveUpAfter = at
+			return
+		}
+	}
+}
 
 // ---------------------------------------------------------------- payloads
 
@@ -610,6 +734,9 @@ var wireSeen = map[string]uint64{}
 
 func runStack(c stackCase) {
 	c.Level = "stack"
+	if !guard(c) {
+		return
+	}
 	name := stackName(c.Stack)
 	class := fmt.Sprintf("stack-d%d", len(c.Stack))
 	payload := c.Pay.bytes()
@@ -710,6 +837,9 @@ type transCase struct {
 
 func runTransform(c transCase) {
 	c.Level = "transform"
+	if !guard(c) {
+		return
+	}
 	payload := c.Pay.bytes()
 	if c.T.Kind == "dns" {
 		c.Shape = domainShape(c.T.Domains)
@@ -833,6 +963,9 @@ func (c fullCase) packet() *com.Packet {
 
 func runFull(c fullCase) {
 	c.Level = "full"
+	if !guard(c) {
+		return
+	}
 	if c.T.Kind == "dns" {
 		c.Shape = domainShape(c.T.Domains)
 	}
@@ -1067,6 +1200,9 @@ var panics = map[string]int{}
 
 func runHist(c histCase) {
 	c.Level = "history"
+	if !guard(c) {
+		return
+	}
 	name := stackName(c.Stack) + "/" + c.T.name()
 	class := fmt.Sprintf("history-d%d-%s", len(c.Stack), c.T.name())
 	var (
@@ -1196,6 +1332,9 @@ func runHist(c histCase) {
 
 // runTrRead: Transform.Read alone on a damaged input: the bytes it has written when it returns.
 func runTrRead(ts tspec, pay paySpec, kind string, arg int) {
+	if !guard(map[string]interface{}{"level": "transform-read", "transform": ts, "payload": pay, "damage": kind, "arg": arg}) {
+		return
+	}
 	t := ts.transform()
 	var w, o bytes.Buffer
 	func() {
@@ -1248,9 +1387,145 @@ func randHist(r *vh.Rand, ws []elem, t tspec, probeEach bool) histCase {
 	return c
 }
 
+// ---------------------------------------------------------------- level E: sends in flight together
+//
+// One stack; one completed send; then two Wrap()s before either Close, their writes interleaved
+// (a Listener serving two Sessions); each wire is unwrapped and compared with its own plaintext,
+// and with the model when the stack is made of modelled elements.
+
+type inflightCase struct {
+	Level  string   `json:"level"`
+	Stack  []elem   `json:"stack"`
+	First  paySpec  `json:"first_send"`
+	A      paySpec  `json:"payload_a"`
+	B      paySpec  `json:"payload_b"`
+	WChunk chunking `json:"write_chunks"`
+	BFirst bool     `json:"close_b_first"`
+}
+
+func runInflight(c inflightCase) {
+	c.Level = "inflight"
+	if !guard(c) {
+		return
+	}
+	var (
+		name   = stackName(c.Stack)
+		pa, pb = c.A.bytes(), c.B.bytes()
+		wa, wb []byte
+		ga, gb []byte
+		stage  = "build"
+		err    error
+	)
+	func() {
+		defer func() {
+			if x := recover(); x != nil {
+				err = fmt.Errorf("panic: %v", x)
+			}
+		}()
+		var w cfg.Wrapper
+		if w, err = buildStack(c.Stack, true); err != nil {
+			return
+		}
+		send := func(p []byte, sink *data.Chunk) error {
+			o, e := w.Wrap(sink)
+			if e != nil {
+				return e
+			}
+			if _, e = o.Write(p); e != nil {
+				return e
+			}
+			return o.Close()
+		}
+		stage = "first send"
+		if err = send(c.First.bytes(), new(data.Chunk)); err != nil {
+			return
+		}
+		stage = "wrap"
+		sa, sb := new(data.Chunk), new(data.Chunk)
+		var oa, ob io.WriteCloser
+		if oa, err = w.Wrap(sa); err != nil {
+			return
+		}
+		if ob, err = w.Wrap(sb); err != nil {
+			return
+		}
+		stage = "interleaved writes"
+		next := c.WChunk.iter()
+		for ra, rb := pa, pb; len(ra) > 0 || len(rb) > 0; {
+			for _, x := range []struct {
+				o io.Writer
+				r *[]byte
+			}{{oa, &ra}, {ob, &rb}} {
+				k := next()
+				if k > len(*x.r) {
+					k = len(*x.r)
+				}
+				if k <= 0 && len(*x.r) > 0 {
+					k = 1
+				}
+				if _, err = x.o.Write((*x.r)[:k]); err != nil {
+					return
+				}
+				*x.r = (*x.r)[k:]
+			}
+		}
+		stage = "close"
+		if c.BFirst {
+			if err = ob.Close(); err != nil {
+				return
+			}
+			err = oa.Close()
+		} else {
+			if err = oa.Close(); err != nil {
+				return
+			}
+			err = ob.Close()
+		}
+		if err != nil {
+			return
+		}
+		wa, wb = append([]byte(nil), sa.Payload()...), append([]byte(nil), sb.Payload()...)
+		stage = "unwrap A"
+		var r io.Reader
+		if r, err = w.Unwrap(bytes.NewReader(wa)); err != nil {
+			return
+		}
+		if ga, err = readAll(r, chunking{Name: "whole"}.iter(), len(pa)+4096); err != nil {
+			return
+		}
+		stage = "unwrap B"
+		if r, err = w.Unwrap(bytes.NewReader(wb)); err != nil {
+			return
+		}
+		gb, err = readAll(r, chunking{Name: "whole"}.iter(), len(pb)+4096)
+	}()
+	key := failKey("inflight-"+strings.Fields(stage)[0]+":"+stackKinds(c.Stack), c.Stack, err)
+	switch {
+	case err != nil:
+		out.Fail(fmt.Sprintf("two sends in flight through %s (after one completed send): %s failed: %v (wire lengths %d, %d)", name, stage, err, len(wa), len(wb)), key, c)
+	case !bytes.Equal(ga, pa) || !bytes.Equal(gb, pb):
+		out.Fail(fmt.Sprintf("two sends in flight through %s (after one completed send): what is read back differs from what was written (A %d/%d bytes, B %d/%d bytes)",
+			name, len(ga), len(pa), len(gb), len(pb)), "inflight-roundtrip:"+stackKinds(c.Stack), c)
+	}
+	class := fmt.Sprintf("inflight-d%d", len(c.Stack))
+	nmax := len(pa)
+	if len(pb) > nmax {
+		nmax = len(pb)
+	}
+	if sc, ok := stackCoq(c.Stack, nmax); err == nil && ok {
+		out.Add(fmt.Sprintf("CStack %s %s %s", sc, c.A.coq(), wireCoq(wa)), class+"-model", true, c)
+		out.Add(fmt.Sprintf("CStack %s %s %s", sc, c.B.coq(), wireCoq(wb)), class+"-model", true, c)
+		return
+	}
+	out.Count(class, fmt.Sprint(c), true)
+}
+
 // ---------------------------------------------------------------- CBK block functions
 
 func runBlock(k [5]byte, index byte, blk []byte) {
+	if !guard(map[string]interface{}{"level": "cbk-block", "key": ints(k[:]), "index": index, "block": ints(blk)}) {
+		return
+	}
 	c := cbkConsts(k)
 	x := c.idx[index]
 	if x.Bad {
@@ -1462,6 +1737,7 @@ func main() {
 	out.ShardSize = 120
 	thorough = fl.Tier == "thorough"
 	r := vh.NewRand(fl.Seed)
+	runCanaries(fl)
 
 	if fl.Replay != "" {
 		replay(fl.Replay)
@@ -1482,6 +1758,45 @@ func main() {
 		RChunk: chunking{Name: "whole"}, CChunk: chunking{Name: "whole"}})
 	runStack(stackCase{Stack: []elem{{Kind: "cbk", CBK: []int{134, 71, 164, 180, 16}}}, Pay: randPay(r, 48), WChunk: chunking{Name: "whole"},
 		RChunk: chunking{Name: "whole"}, CChunk: chunking{Name: "whole"}})
+
+	// ---- 1b. two sends in flight through one stack after a completed send: a wrapper that closes the
+	// writer under it (XOR, AES, CBK) above a pooled compressor, and other stacks
+	{
+		goodCBK := func(e elem) elem {
+			for e.Kind == "cbk" && cbkConsts(e.cbkKey()).anyBad {
+				e = randElem(r, []string{"cbk"})
+			}
+			return e
+		}
+		var stacks [][]elem
+		for _, up := range []string{"xor", "aes", "cbk"} {
+			for _, lo := range []string{"zlib", "gzip"} {
+				stacks = append(stacks, []elem{goodCBK(randElem(r, []string{up})), {Kind: lo}})
+				stacks = append(stacks, []elem{{Kind: "hex"}, goodCBK(randElem(r, []string{up})), {Kind: lo}, {Kind: "b64"}})
+			}
+		}
+		stacks = append(stacks, []elem{{Kind: "zlib"}}, []elem{{Kind: "gzip"}}, []elem{{Kind: "zlib"}, {Kind: "gzip"}})
+		ni := 24
+		if thorough {
+			ni = 400
+		}
+		for i := 0; i < ni; i++ {
+			kinds := allKinds
+			if i%2 == 0 {
+				kinds = modelKinds
+			}
+			ws := make([]elem, 1+r.Intn(3))
+			for j := range ws {
+				ws[j] = goodCBK(randElem(r, kinds))
+			}
+			stacks = append(stacks, ws)
+		}
+		for _, ws := range stacks {
+			bs := maxBlock(ws)
+			runInflight(inflightCase{Stack: ws, First: randPay(r, 1+r.Intn(300)), A: randPay(r, []int{1, 33, 300, 2049}[r.Intn(4)]),
+				B: randPay(r, []int{1, 64, 257, 1000}[r.Intn(4)]), WChunk: randChunk(r, bs), BFirst: r.Bool()})
+		}
+	}
 
 	// ---- 2. CBK block functions against the model
 	nb := 6
@@ -1805,6 +2120,11 @@ func replay(path string) {
 		var c fullCase
 		if err = json.Unmarshal(f.Input, &c); err == nil {
 			runFull(c)
+		}
+	case "inflight":
+		var c inflightCase
+		if err = json.Unmarshal(f.Input, &c); err == nil {
+			runInflight(c)
 		}
 	case "history":
 		var c histCase
